@@ -165,8 +165,41 @@ def chk_master(seed_hex, testnet):
     return viols
 
 
+def _pure_inputs():
+    """serialised keys that share all fields but one (version, depth, fingerprint, child number, chain code, key)"""
+    base = dict(v=0x0488ADE4, depth=3, fp="01020304", index=7, chain="11" * 32, scalar="%x" % 0xABCDEF, sec=None)
+    out = [base]
+    for k, val in (("v", 0x04B2430C), ("v", 0x04358394), ("depth", 4), ("fp", "01020305"), ("index", 8), ("index", H + 7), ("chain", "12" * 32),
+                   ("scalar", "%x" % 0xABCDF0)):
+        out.append(dict(base, **{k: val}))
+    pub = dict(base, v=0x0488B21E, scalar=None, sec=secp.sec(secp.pub(0xABCDEF)).hex())
+    out += [pub, dict(pub, v=0x04B24746), dict(pub, chain="12" * 32), dict(pub, sec=secp.sec(secp.pub(0xABCDF0)).hex()), dict(pub, depth=4)]
+    return out
+
+
+def _ev_judge(i):
+    """many distinct extended-key strings (distinct scalar, child number and version)"""
+    v = VERSIONS[i % 12]
+    k = 0xA11CE + 13 * i
+    if hd.SLIP132[v][1] == "prv":
+        return chk_payload(v, 1 + i % 5, "0a0b0c0d", i, "21" * 32, "%x" % k, None)
+    return chk_payload(v, 1 + i % 5, "0a0b0c0d", i, "21" * 32, None, secp.sec(secp.pub(k)).hex())
+
+
+def _pure_judge(i):
+    c = _pure_inputs()[i]
+    return chk_payload(c["v"], c["depth"], c["fp"], c["index"], c["chain"], c["scalar"], c["sec"])
+
+
 def execute(case):
-    k = case["k"]
+    k = case.get("k")
+    if "hist" in case:
+        from ..core import isolated
+        from ..bfs import PureCalls
+        r = isolated(PureCalls(10**6, _ev_judge if case.get("layer", "").endswith("revisits") else _pure_judge, P).run, case["hist"])
+        for v in r["viols"]:
+            v["case"] = case
+        return R(r["label"], viols=r["viols"])
     if k == "version":
         vs = chk_version(case["v"])
         return R("violation" if vs else "version-table-ok", viols=vs)
@@ -238,4 +271,10 @@ def run(ctx):
             for i, sec in enumerate(pubs):
                 cases.append({"k": "block", "v": v, "chain": chains[i % len(chains)], "sec": sec, "fps": fps, "indexes": idxs})
     ctx.product("payload-product", cases, execute, chunk=1)
+    from ..bfs import bfs, long_histories, PureCalls
+    model = PureCalls(len(_pure_inputs()), _pure_judge, P)
+    bfs(ctx, "parse-serialise-call-histories", model, 3 if ctx.thorough else 2)
+    long_histories(ctx, "parse-serialise-call-histories+long", model, rotations=7 if ctx.thorough else 3, rounds=2)
+    from ..bfs import eviction_probe
+    eviction_probe(ctx, "parse-serialise-revisits", PureCalls(10**6, _ev_judge, P), lambda i: i, sizes=(1, 2, 3, 4, 5, 8, 9, 16, 17, 32, 33, 64, 65))
     return {"versions": 12, "depths": DEPTHS, "indexes": idxs, "fingerprints": fps, "key_chain_pairs": len(pairs), "public_points": len(pubs)}
